@@ -57,6 +57,15 @@ function mk(site, n, mode) {
   res[Symbol.iterator] = function() { log(id + '.iter ' + mode); return it; };
   return res;
 }
+function* genNested(site, n) {
+  // a generator that is itself suspended inside for-of + try/finally: closing it (break in the consumer) must run its
+  // finally block first and close the inner iterator afterwards
+  var id = site + '#' + (++__inst);
+  for (var x of mk(site + 'i', n, 'plain')) {
+    try { log(id + '.nyield ' + x); yield x; } finally { log(id + '.loopfinally ' + x); }
+  }
+  log(id + '.nexhausted');
+}
 function* gen(site, n) {
   var id = site + '#' + (++__inst);
   try { for (var i = 1; i <= n; i++) { log(id + '.yield ' + i); yield i; } log(id + '.exhausted'); }
@@ -133,7 +142,9 @@ func (g *gen) block(pre *Node, n int) *Node {
 
 func (g *gen) iterable(site int) *Node {
 	s := Str("it" + strconv.Itoa(site))
-	switch g.draw(8, "itk") {
+	switch g.draw(9, "itk") {
+	case 8:
+		return Call(Id("genNested"), s, Num(float64(1+g.draw(3, "gnn"))))
 	case 0:
 		return Call(Id("gen"), s, Num(float64(1+g.draw(3, "gn"))))
 	case 1:
@@ -352,6 +363,8 @@ func genCase(t *rapid.T) (*CFCase, *gen) {
 var reEvt = regexp.MustCompile(`^"?([TCF])(\d+)"?$`)
 var reIt = regexp.MustCompile(`^"?(it\d+#\d+)\.(next d=(true|false)|next throws|next nonobject|return|iter \w+|yield \d+|exhausted|genfinally)"?$`)
 
+var reNest = regexp.MustCompile(`^"?(it\d+)(i?)#\d+\.(nyield \d+|loopfinally \d+|nexhausted|return|next d=(?:true|false)|iter \w+)"?$`)
+
 // checkTrace applies the bracket discipline and the iterator-close rules to a log.
 func checkTrace(log []string, finIDs map[string]bool) string {
 	var stack []string // open try regions that have a finally
@@ -361,6 +374,7 @@ func checkTrace(log []string, finIDs map[string]bool) string {
 		isGen, capable      bool
 	}
 	its := map[string]*itState{}
+	nestPending := map[string]string{}
 	var order []string
 	for _, raw := range log {
 		e := strings.Trim(raw, `"`)
@@ -376,6 +390,28 @@ func checkTrace(log []string, finIDs map[string]bool) string {
 					return fmt.Sprintf("finally F%s ran while the innermost pending finally is %v (not LIFO / ran twice / ran without its try)", id, stack)
 				}
 				stack = stack[:len(stack)-1]
+			}
+			continue
+		}
+		if m := reNest.FindStringSubmatch(e); m != nil && (m[2] == "i" || strings.HasPrefix(m[3], "n") && !strings.HasPrefix(m[3], "next") || strings.HasPrefix(m[3], "loopfinally")) {
+			// genNested: every suspension inside its try is matched by its finally before the next one,
+			// before the inner iterator is closed and before the program ends
+			site, inner := m[1], m[2] == "i"
+			switch {
+			case !inner && strings.HasPrefix(m[3], "nyield "):
+				if nestPending[site] != "" {
+					return fmt.Sprintf("nested generator %s: resumed although the finally of its previous suspension (%s) has not run", site, nestPending[site])
+				}
+				nestPending[site] = strings.TrimPrefix(m[3], "nyield ")
+			case !inner && strings.HasPrefix(m[3], "loopfinally "):
+				if x := strings.TrimPrefix(m[3], "loopfinally "); nestPending[site] != x {
+					return fmt.Sprintf("nested generator %s: finally for %s ran while pending is %q (twice / without suspension)", site, x, nestPending[site])
+				}
+				nestPending[site] = ""
+			case inner && m[3] == "return":
+				if nestPending[site] != "" {
+					return fmt.Sprintf("nested generator %s: its inner iterator was closed before the pending finally block (%s) ran", site, nestPending[site])
+				}
 			}
 			continue
 		}
@@ -420,6 +456,11 @@ func checkTrace(log []string, finIDs map[string]bool) string {
 	}
 	if len(stack) > 0 {
 		return fmt.Sprintf("the program ended with pending finally blocks that never ran: %v", stack)
+	}
+	for site, x := range nestPending {
+		if x != "" {
+			return fmt.Sprintf("nested generator %s was left suspended in its try block (%s) and its finally never ran although the consumer finished", site, x)
+		}
 	}
 	for _, id := range order {
 		st := its[id]
